@@ -55,10 +55,11 @@ def cciS (p : Nat) : Sig α :=
     (map (fun c => if Arith.ge c (nat 100) then buy else if Arith.le c (Arith.neg (nat 100)) then sell else hold)
       (cci p sHigh sHigh sHigh))
 
-def demaS (p1 p2 : Nat) : Sig α :=
-  let d1 := shift (p1 + p1 - 2) zero (dema p1 p1 sClose)
-  let d2 := shift (p2 + p2 - 2) zero (dema p2 p2 sClose)
-  shift (p2 + p2 - 2) hold (skip (p2 + p2 - 2) (zip gtRule d1 d2))
+/-- DEMA strategy; each DEMA has its own two EMA periods (`Dema.Ema1.Period`, `Dema.Ema2.Period`) -/
+def demaS (p1 q1 p2 q2 : Nat) : Sig α :=
+  let d1 := shift (p1 + q1 - 2) zero (dema p1 q1 sClose)
+  let d2 := shift (p2 + q2 - 2) zero (dema p2 q2 sClose)
+  shift (p2 + q2 - 2) hold (skip (p2 + q2 - 2) (zip gtRule d1 d2))
 
 def envelopeS (ma : MaKind) (pct : α) : Sig α :=
   let idle := maIdle ma
@@ -218,7 +219,9 @@ def lookupS (name : String) (ns : List Nat) (fs : List α) : Option (SEntry α) 
   | "Aroon" => some ⟨aroonS (n 0), n 0 - 1⟩
   | "Bop" => some ⟨bopS, 0⟩
   | "Cci" => some ⟨cciS (n 0), n 0 * 2 - 2⟩
-  | "Dema" => some ⟨demaS (n 0) (n 1), n 1 + n 1 - 2⟩
+  | "Dema" =>
+    if ns.length ≥ 4 then some ⟨demaS (n 0) (n 2) (n 1) (n 3), n 1 + n 3 - 2⟩
+    else some ⟨demaS (n 0) (n 0) (n 1) (n 1), n 1 + n 1 - 2⟩
   | "Envelope" => some ⟨envelopeS (maOf (n 0) (n 1)) (f 0), maIdle (maOf (n 0) (n 1))⟩
   | "GoldenCross" => some ⟨goldenCross (n 0) (n 1), n 1 - 1⟩
   | "Kama" => some ⟨kamaS (n 0) (n 1) (n 2), n 0⟩
